@@ -403,11 +403,11 @@ def parseMap (ls : List (List Char)) : MapFile :=
 /-! ## Share file -/
 
 inductive ShareFmt where
-  | pascal | c | asmIntel | asmMoto | asmC
+  | pascal | c | asmIntel | asmMoto | asmC | asmIBM
 deriving Repr, DecidableEq, Inhabited
 
 /-- hexadecimal constant in the notation of the format: `$…`, `0x…`, `…H` (Intel: a leading `0`
-may precede a letter) -/
+may precede a letter), `X'…'` (IBM); hex digits and the letters `H`/`X` in either case -/
 def parseShareValue (fmt : ShareFmt) (v : List Char) : Option Nat :=
   match fmt with
   | .pascal | .asmMoto =>
@@ -417,6 +417,15 @@ def parseShareValue (fmt : ShareFmt) (v : List Char) : Option Nat :=
   | .c | .asmC =>
     (match v with
      | '0' :: 'x' :: ds => parseNum 16 ds
+     | _ => none)
+  | .asmIBM =>
+    (match v with
+     | x :: q :: ds =>
+       if (x = 'X' ∨ x = 'x') ∧ q = '\'' then
+         (match ds.reverse with
+          | q2 :: sd => if q2 = '\'' then parseNum 16 sd.reverse else none
+          | [] => none)
+       else none
      | _ => none)
   | .asmIntel =>
     (match v.reverse with
@@ -486,5 +495,117 @@ def splitBar : List Char → List Char → List (List Char)
 
 def parseSymLine (l : List Char) : List (List Char × Bool × List Char × List Char) :=
   (splitBar l []).filterMap parseSymCell
+
+/-- one cell of the listing's symbol table with the section: `[*]NAME : [ [SECTION]] <blanks> VALUE <segchar>`
+↦ (name, unused, section, value text, segment letter) -/
+def parseSymCellX (cell : List Char) : Option (List Char × Bool × Option (List Char) × List Char × List Char) :=
+  match words cell with
+  | nm :: [':'] :: rest =>
+    let (unused, name) := match nm with
+      | '*' :: n => (true, n)
+      | n => (false, n)
+    (match rest with
+     | [v, seg] =>
+       -- a section may be followed by the value without a blank in between: `[SECTION]VALUE`
+       (match v with
+        | '[' :: t =>
+          (match splitAt1 ']' t with
+           | some (sec, v') => if v'.isEmpty then none else some (name, unused, some sec, v', seg)
+           | none => none)
+        | _ => some (name, unused, none, v, seg))
+     | [sec, v, seg] =>
+       (match sec, sec.reverse with
+        | '[' :: _, ']' :: _ => some (name, unused, some ((sec.drop 1).dropLast), v, seg)
+        | _, _ => none)
+     | _ => none)
+  | _ => none
+
+/-- all cells of a symbol-table line (cells end with `|`; what follows the last `|` is not a cell) -/
+def parseSymLineX (l : List Char) : List (Option (List Char × Bool × Option (List Char) × List Char × List Char)) :=
+  ((splitBar l []).dropLast).map parseSymCellX
+
+/-! ## Values that are not integers -/
+
+def spanDigits : List Char → List Char × List Char
+  | [] => ([], [])
+  | c :: cs => if 48 ≤ c.toNat ∧ c.toNat ≤ 57 then ((c :: (spanDigits cs).1), (spanDigits cs).2) else ([], c :: cs)
+
+/-- a decimal floating point numeral `[-]ddd[.ddd][(e|E)[+|-]dd]` ↦ (negative, m, e) meaning `m * 10^e` -/
+def parseDecimal (s : List Char) : Option (Bool × Nat × Int) :=
+  let (neg, s1) := match s with
+    | '-' :: t => (true, t)
+    | _ => (false, s)
+  let (ip, r1) := spanDigits s1
+  let (fp, r2) := match r1 with
+    | '.' :: t => spanDigits t
+    | _ => ([], r1)
+  match parseNum 10 (ip ++ fp) with
+  | none => none
+  | some m =>
+    match r2 with
+    | [] => some (neg, m, - (fp.length : Int))
+    | e :: t =>
+      if e = 'e' ∨ e = 'E' then
+        let (eneg, t1) := match t with
+          | '-' :: u => (true, u)
+          | '+' :: u => (false, u)
+          | _ => (false, t)
+        match parseNum 10 t1 with
+        | some x => some (neg, m, (if eneg then - (x : Int) else (x : Int)) - (fp.length : Int))
+        | none => none
+      else none
+
+/-- does the numeral (negative, m, e) denote `± num / 2^k` ? -/
+def decimalIs (d : Bool × Nat × Int) (neg : Bool) (num k : Nat) : Bool :=
+  let (dn, m, e) := d
+  (if e ≥ 0 then m * 10 ^ e.toNat * 2 ^ k == num else m * 2 ^ k == num * 10 ^ (-e).toNat) && (num == 0 || dn == neg)
+
+/-- name, changeable?, value text of a share-file definition line (value text: up to the first blank;
+Pascal: up to the `;`) -/
+def shareFields (fmt : ShareFmt) (l : List Char) : Option (List Char × Bool × List Char) :=
+  match fmt with
+  | .c =>
+    (match splitAt1 ' ' l with
+     | some (kw, rest) =>
+       if kw = ['#','d','e','f','i','n','e'] then
+         match splitAt1 ' ' rest with
+         | some (nm, v) => some (nm, false, (spanNonSp v).1)
+         | none => none
+       else none
+     | none => none)
+  | .pascal =>
+    (match splitAt1 ' ' l with
+     | some (nm, rest) =>
+       (match rest with
+        | e :: sp :: v =>
+          if e = '=' ∧ sp = ' ' then
+            match splitAt1 ';' v with
+            | some (vv, _) => some (nm, false, vv)
+            | none => none
+          else none
+        | _ => none)
+     | none => none)
+  | _ =>
+    (match splitAt1 ' ' l with
+     | some (nm, rest) =>
+       (match splitAt1 ' ' rest with
+        | some (kw, v) =>
+          if kw = ['e','q','u'] then some (nm, false, (spanNonSp v).1)
+          else if kw = ['s','e','t'] then some (nm, true, (spanNonSp v).1)
+          else none
+        | none => none)
+     | none => none)
+
+/-- a string constant in the notation of the format: `'…'` (Pascal), `"…"` (C, assembler) -/
+def parseShareString (fmt : ShareFmt) (v : List Char) : Option (List Char) :=
+  let q := match fmt with
+    | .pascal => '\''
+    | _ => '"'
+  match v with
+  | a :: t =>
+    (match t.reverse with
+     | b :: m => if a = q ∧ b = q then some m.reverse else none
+     | [] => none)
+  | [] => none
 
 end AslModel.Listing
